@@ -1,6 +1,7 @@
 (* Props/C01.v — C01 Field storage round-trip: statements only (proofs in Proofs/StoreProofs.v,
-   Proofs/IdxWriterProofs.v, Proofs/IdxReadProofs.v).  Model: Model/IdxWriter.v (the repaired
-   tree: fix-F-C01a, fix-F-C01c, fix-F-C01d); spec: Spec/IdxWriterSpec.v. *)
+   Proofs/IdxWriterProofs.v, Proofs/IdxReadProofs.v, Proofs/FieldWorldProofs.v, Proofs/FieldAliasProofs.v).
+   Model: Model/IdxWriter.v (the repaired tree: fix-F-C01a, fix-F-C01c, fix-F-C01d), Model/FieldWorld.v
+   (several fields; arrays as objects); spec: Spec/IdxWriterSpec.v, Spec/FieldWorldSpec.v. *)
 From Coq Require Import ZArith List.
 From EV Require Import Res Arr IdxWriter IdxWriterSpec StoreProofs IdxWriterProofs IdxReadProofs.
 From EV Require Import FieldWorld FieldWorldSpec FieldWorldProofs FieldAliasProofs.
